@@ -331,7 +331,7 @@ Definition tgt_tree (cfg : config) (srv : server) (sn : snapshot) (cs : bool) (t
   (tg_has_deleg t0 = false /\ t = t0)
   \/ (tg_has_deleg t0 = true
       /\ exists rs, t = tg_set_roles t0 rs
-                    /\ tree cfg srv sn cs (c_fuel cfg) [name_targets_role] (tg_dkeys t0) (tg_roles t0) rs).
+                    /\ tree cfg srv sn cs (c_fuel cfg) (top_ancestors fixed) (tg_dkeys t0) (tg_roles t0) rs).
 
 Lemma load_targets_live cfg r sn srv now w t0 t : quiet w -> clock_fwd now (w_store w) ->
   tgt_accepted cfg r sn srv now (w_store w) t0 -> tgt_tree cfg srv sn (r_cs r) t0 t -> validate t = true ->
@@ -356,7 +356,7 @@ Proof.
   destruct HT as [(Hd & ->)|(Hd & rs & -> & HT)]; rewrite Hd.
   - rewrite Hval. exists w3. auto.
   - destruct (load_delegs_live cfg srv sn (r_cs r) (opt_default (m_length m) (c_max_targets_size cfg))
-                (c_fuel cfg) [name_targets_role] (tg_dkeys t0) (tg_roles t0) rs w3 HT Q3) as (w4 & E4 & _ & T4 & Q4).
+                (c_fuel cfg) (top_ancestors fixed) (tg_dkeys t0) (tg_roles t0) rs w3 HT Q3) as (w4 & E4 & _ & T4 & Q4).
     rewrite E4, Hval. exists w4. split; [reflexivity|]. split; [exact Q4|].
     eapply clock_fwd_same_time; [exact T4|exact C3].
 Qed.
